@@ -298,7 +298,11 @@ def build_variable(eds, section, node_id, index, subindex=0):
             if var.data_type in datatypes.SIGNED_TYPES:
                 var.min = _signed_int_from_hex(min_string, _calc_bit_length(var.data_type))
             elif var.data_type in datatypes.FLOAT_TYPES:
-                var.min = float(min_string)
+                try:
+                    var.min = float(min_string)
+                except ValueError:
+                    # A whole number in one of the other spellings
+                    var.min = int(min_string, 0)
             else:
                 var.min = int(min_string, 0)
         except ValueError:
@@ -309,7 +313,11 @@ def build_variable(eds, section, node_id, index, subindex=0):
             if var.data_type in datatypes.SIGNED_TYPES:
                 var.max = _signed_int_from_hex(max_string, _calc_bit_length(var.data_type))
             elif var.data_type in datatypes.FLOAT_TYPES:
-                var.max = float(max_string)
+                try:
+                    var.max = float(max_string)
+                except ValueError:
+                    # A whole number in one of the other spellings
+                    var.max = int(max_string, 0)
             else:
                 var.max = int(max_string, 0)
         except ValueError:
